@@ -290,7 +290,7 @@ var schemaChecks = []schemaCheck{
 		return true, fmt.Sprintf("%d html/template constants: one auto-submitting POST form, action {{.URL}}, hidden payload and optional RelayState inputs, every action a complete double-quoted attribute value", len(facts))
 	}},
 	{"schema.templates.fields", []string{"C16"}, dataFieldsAreStrings},
-	{"schema.decode.reflective", []string{"C20", "C08", "C01", "C04", "C10"}, noCustomUnmarshal},
+	{"schema.decode.reflective", []string{"C20", "C08", "C01", "C03", "C04", "C05", "C06", "C10"}, noCustomUnmarshal},
 	{"schema.uuid.string", []string{"C18"}, uuidStringShape},
 	{"schema.unverified.free", []string{"C20"}, func(w *World) (bool, string) {
 		ok1, d1 := freeFunc(w, "DecodeUnverifiedBaseResponse")
